@@ -1,6 +1,7 @@
 import Genshi.Wire
 import Genshi.Model.PyGen
 import Genshi.Model.PyParse
+import Genshi.Model.PyParseS
 import Driver.PyWire
 namespace Driver.C13
 open Genshi Genshi.Py Genshi.Sexp Driver.PyWire
@@ -40,6 +41,23 @@ def handle : List Sexp → Option Sexp
           match pyParse toks with
           | none => some (.atom "none")
           | some e' => some (.list [.atom "ok", encE e'])
+  | [.atom "parseS", .list ls] =>
+      match ls.mapM decLine with
+      | none => some (.atom "unmodelled")
+      | some lines =>
+        match pyParseS lines with
+        | none => some (.atom "none")
+        | some ss => some (.list [.atom "ok", .list (ss.map encS)])
+  | [.atom "roundtripS", .list ss] =>
+      match ss.mapM decS with
+      | none => some (.atom "unmodelled")
+      | some body =>
+        match genModule body with
+        | none => some (.atom "raises")
+        | some lines =>
+          match pyParseS lines with
+          | none => some (.atom "none")
+          | some ss' => some (.list [.atom "ok", .list (ss'.map encS)])
   | _ => none
 
 end Driver.C13
